@@ -37,6 +37,30 @@ def check(ck):
     r07_5(ck)
     r07_6(ck)
     r07_7(ck)
+    r07_8(ck)
+    from . import c04, c09
+    from ..engine_model import RunFor
+    rf = RunFor(ck)
+    ck.shared('R07.9', 'the states come from the current hierarchy: they '
+              'are looked up afresh at every invocation (no store or view '
+              'kept on the engine), and the outer links along which ".." '
+              'wiring is resolved name the actual parent of every node',
+              lambda c: c04.r04_3(c, rf), c09.r09_7)
+
+
+def expire_name(fnode):
+    """Name of the local that Store.apply_update returns as the sixth
+    element of its result (the view-expiry flag); None when the 6-tuple
+    returns do not agree on one local."""
+    names = set()
+    for r in A.walk_no_nested(fnode):
+        if isinstance(r, ast.Return) and isinstance(r.value, ast.Tuple) and \
+                len(r.value.elts) == 6:
+            e = r.value.elts[5]
+            names.add(e.id if isinstance(e, ast.Name) else None)
+    if len(names) == 1 and None not in names:
+        return names.pop()
+    return None
 
 
 def popped_keys(fnode, upd):
@@ -68,9 +92,10 @@ def r07_1(ck):
             if isinstance(r, ast.Return)]
     rets = [r for r in rets if r is not None]
     expire = set()
+    VE = expire_name(f.node) or 'view_expire'
     for s in A.walk_no_nested(f.node):
         if isinstance(s, ast.Assign) and any(
-                A.is_name(t, 'view_expire') for t in s.targets):
+                A.is_name(t, VE) for t in s.targets):
             if isinstance(s.value, ast.Constant) and s.value.value is True:
                 expire.add(cfg.node(s))
     for key, meth in sorted(STRUCTURAL.items()):
@@ -113,7 +138,7 @@ def r07_2(ck):
     for r in A.walk_no_nested(f.node):
         if isinstance(r, ast.Return) and isinstance(r.value, ast.Tuple) and \
                 len(r.value.elts) == 6:
-            ok = A.is_name(r.value.elts[5], 'view_expire')
+            ok = expire_name(f.node) is not None
             ck.require(ok, 'R07.2', f, r,
                        'the sixth element returned is the expiry flag',
                        'Store.apply_update does not return view_expire', r)
@@ -124,6 +149,7 @@ def r07_2(ck):
     inner_calls = [c for c in A.calls_in(f.node, 'apply_update')
                    if not A.is_name(A.call_receiver(c), 'self')]
     folded = False
+    VE = expire_name(f.node) or 'view_expire'
     for c in inner_calls:
         st = c
         while not isinstance(st, ast.stmt):
@@ -134,14 +160,14 @@ def r07_2(ck):
             iv = A.unparse(st.targets[0].elts[5])
             for s in A.walk_no_nested(f.node):
                 if isinstance(s, ast.Assign) and any(
-                        A.is_name(t, 'view_expire') for t in s.targets) \
+                        A.is_name(t, VE) for t in s.targets) \
                         and iv in A.names_in(s.value):
                     g = cfg.guards(cfg.node(s))
                     if ('truthy', iv) in g or isinstance(
                             s.value, ast.BoolOp):
                         folded = True
                 if isinstance(s, ast.AugAssign) and A.is_name(
-                        s.target, 'view_expire') and iv in A.names_in(
+                        s.target, VE) and iv in A.names_in(
                         s.value):
                     folded = True
     ck.require(folded, 'R07.2', f, inner_calls[0] if inner_calls
@@ -279,6 +305,14 @@ def r07_2(ck):
 from .c05 import _loop_of  # noqa: E402  (iterables belong to the outside)
 
 
+def _PV(f):
+    """Name of the local holding the topology path of the current entry in
+    a topology reader (schema_topology, topology_state)."""
+    from .c06 import topo_loop
+    tl = topo_loop(f)
+    return tl[2] if tl and tl[2] else 'path'
+
+
 def r07_4(ck):
     ck.rule('R07.4', 'mask provenance: keys of the view come from the '
             'declared schema (or the children of a glob node), output ports '
@@ -310,10 +344,14 @@ def r07_4(ck):
                "not guarded by `not schema.get('_output')`", loop)
     n = 0
     kinds = set()
+    # the view under construction is the local the function returns
+    views = {r.value.id for r in A.walk_no_nested(f.node)
+             if isinstance(r, ast.Return) and isinstance(r.value, ast.Name)}
     for s in A.walk_no_nested(loop):
         if isinstance(s, ast.Assign) and isinstance(
-                s.targets[0], ast.Subscript) and A.is_name(
-                s.targets[0].value, 'state'):
+                s.targets[0], ast.Subscript) and isinstance(
+                s.targets[0].value, ast.Name) and \
+                s.targets[0].value.id in views:
             n += 1
             k = A.unparse(s.targets[0].slice)
             sg = cfg.guards(cfg.node(s))
@@ -360,7 +398,7 @@ def r07_4(ck):
                % sorted({'glob', 'plain'} - kinds), loop)
     for c in A.calls_in(loop, ('get_path', 'outer_path')):
         a0 = A.arg_of(c, 0)
-        if a0 is not None and 'path' in A.names_in(a0):
+        if a0 is not None and _PV(f) in A.names_in(a0):
             ck.require(A.is_name(A.call_receiver(c), 'self'), 'R07.4', f, c,
                        'ports are resolved relative to the node the process '
                        'sits under',
@@ -369,12 +407,84 @@ def r07_4(ck):
     # leaf / '**' returns the node itself
     ok = False
     for s in A.walk_no_nested(f.node):
-        if isinstance(s, ast.Assign) and A.is_name(s.targets[0], 'state') \
+        if isinstance(s, ast.Assign) and isinstance(
+                s.targets[0], ast.Name) and s.targets[0].id in views \
                 and A.is_name(s.value, 'self'):
             sg = cfg.guards(cfg.node(s))
             ok = True
     ck.require(ok, 'R07.4', f, f.node.name,
                "a leaf (or '**') is viewed as the node itself", None)
+
+
+def r07_8(ck):
+    ck.rule('R07.8', 'view_values hands the process fresh dictionaries: for '
+            'a Store the value, otherwise a newly built dict with one entry '
+            'per key of the cached view, each converted recursively; the '
+            'cached view (or a part of it) is never returned itself')
+    f = ck.fn('view_values', 'core.store')
+    cfg = cfg_of(f.node)
+    p0 = A.params_of(f.node)[0]
+    rets = [r for r in A.walk_no_nested(f.node) if isinstance(r, ast.Return)]
+    ck.require(bool(rets), 'R07.8', f, f.node.name,
+               'view_values returns the converted view', None)
+    fresh_names = set()
+    for r in rets:
+        v = r.value
+        g = cfg.guards(cfg.node(r))
+        if isinstance(v, ast.Call) and A.call_name(v) == 'get_value' and \
+                A.is_name(A.call_receiver(v), p0):
+            ck.require(('isinstance', p0, 'Store') in g, 'R07.8', f, r,
+                       'get_value() is asked of a Store only', None, r)
+            continue
+        ok = False
+        if isinstance(v, ast.Name) and v.id != p0:
+            ds = [d for d in reaching(f.node).at(r, v.id)
+                  if d.kind != 'mutate']
+            ok = bool(ds) and all(
+                d.kind == 'assign' and (
+                    (isinstance(d.value, ast.Dict) and not d.value.keys)
+                    or isinstance(d.value, ast.DictComp)
+                    or (isinstance(d.value, ast.Call) and A.call_name(
+                        d.value) == 'dict' and not d.value.args))
+                for d in ds)
+            if ok:
+                fresh_names.add(v.id)
+        elif isinstance(v, ast.DictComp):
+            ok = True
+        ck.require(ok, 'R07.8', f, r,
+                   'the returned dictionary is built afresh for this call',
+                   'view_values returns %s: a dictionary of the cached '
+                   'topology view is handed to the process, which may write '
+                   'into it - later invocations then see what it wrote'
+                   % A.unparse(v), r)
+    # every key is converted, unconditionally, by the recursive call
+    n = 0
+    for lp in A.walk_no_nested(f.node):
+        if isinstance(lp, ast.For) and p0 in A.names_in(lp.iter):
+            for s2 in A.walk_no_nested(lp):
+                if isinstance(s2, ast.Assign) and isinstance(
+                        s2.targets[0], ast.Subscript) and isinstance(
+                        s2.targets[0].value, ast.Name) and \
+                        s2.targets[0].value.id in fresh_names:
+                    n += 1
+                    extra = cfg.guards(cfg.node(s2)) - cfg.guards(
+                        cfg.loops[id(lp)]['body_entry'])
+                    ck.require(not extra, 'R07.8', f, s2,
+                               'every key of the view is converted', None,
+                               s2)
+                    ck.require(isinstance(s2.value, ast.Call) and
+                               A.call_name(s2.value) == f.name, 'R07.8', f,
+                               s2, 'entries are converted recursively',
+                               'an entry of the view is handed on as it is '
+                               '(%s)' % A.unparse(s2.value), s2)
+    for dc in ast.walk(f.node):
+        if isinstance(dc, ast.DictComp):
+            n += 1
+            ck.require(not any(g.ifs for g in dc.generators) and isinstance(
+                dc.value, ast.Call) and A.call_name(dc.value) == f.name,
+                'R07.8', f, dc, 'every key of the view is converted '
+                'recursively', None, dc)
+    ck.floor('R07.8', n, 1, 'conversions of view entries')
 
 
 def r07_5(ck):
